@@ -57,6 +57,7 @@ pub fn classify(msg: &str, stage: u32) -> u32 {
         ("Struct with Object inside cannot be used as an array", 18),
         ("should not have bounded array of primitive/struct", 19),
         ("needs more than", 20),
+        ("is too large: its size does not fit", 21),
         ("is not in the range 1..=65535", 1),
         ("with overflow", 21),
         ("TryFromIntError", 20),
